@@ -239,27 +239,39 @@ def findCase (c : Bytes) : List QCase → Option QCase
   | [] => none
   | q :: qs => if q.constraint == c then some q else findCase c qs
 
-/-- One constraint of the list; `seen` = constraints already handled (duplicates are skipped). -/
+/-- Is the part of the record a guarded constraint needs missing? -/
+def guardedNil (c : Bytes) (r : Rec) : Bool :=
+  JoinQuery.nilGuards.any fun g =>
+    g.1 == c &&
+      ((g.2 == [68, 105, 115, 116, 114, 105, 98, 117, 116, 105, 111, 110] && r.dist.isNone) ||
+       (g.2 == [82, 101, 112, 111, 115, 105, 116, 111, 114, 121] && r.repo.isNone))
+
+/-- What the loop body computes for one constraint not yet seen: the nil
+    guards, then the switch. -/
+def hereOut (c : Bytes) (r : Rec) (v : Vuln) : QOut :=
+  if guardedNil c r then .err else
+  match findCase c JoinQuery.switchCases with
+  | none => .err
+  | some q =>
+    match q.field with
+    | none => (match rowCol q.column v with
+      | some x => .ok (!x.isEmpty)
+      | none => .err)
+    | some f => (match recField f r, rowCol q.column v with
+      | .val a, some b => .ok (a == b)
+      | .nilDeref, _ => .panic
+      | _, _ => .err)
+
+/-- The constraint loop; `seen` = constraints already handled (duplicates are skipped). -/
 def constraintsHold (r : Rec) (v : Vuln) : List Bytes → List Bytes → QOut
   | [], _ => .ok true
   | c :: cs, seen =>
     if seen.contains c then constraintsHold r v cs seen else
-    match findCase c JoinQuery.switchCases with
-    | none => .err
-    | some q =>
-      let here : QOut := match q.field with
-        | none => (match rowCol q.column v with
-          | some x => .ok (!x.isEmpty)
-          | none => .err)
-        | some f => (match recField f r, rowCol q.column v with
-          | .val a, some b => .ok (a == b)
-          | .nilDeref, _ => .panic
-          | _, _ => .err)
-      match here with
-      | .ok t => (match constraintsHold r v cs (c :: seen) with
-        | .ok t' => .ok (t && t')
-        | o => o)
-      | o => o
+    match hereOut c r v with
+    | .ok t => (match constraintsHold r v cs (c :: seen) with
+      | .ok t' => .ok (t && t')
+      | o => o)
+    | o => o
 
 /-- Does the row satisfy the WHERE clause `buildGetQuery(record, {Matchers: cs,
     VersionFiltering: vf})` builds?  `inRange`: `vulnerable_range @> version`
@@ -270,23 +282,23 @@ def getQuery (cs : List Bytes) (vf : Bool) (inRange : Bool) (r : Rec) (v : Vuln)
   | .val _ =>
     (match clauseHolds JoinQuery.pkgClause r v with
      | .ok pk =>
-       (match recField JoinQuery.srcGuard r with
-        | .nilDeref => .panic
-        | .unknown => .err
-        | .val g =>
-          let first : QOut :=
+       (let first : QOut :=
+          match recField JoinQuery.srcGuard r with
+          | .nilDeref => if JoinQuery.srcNilGuard then .ok pk else .panic
+          | .unknown => .err
+          | .val g =>
             if g.isEmpty then .ok pk else
             match clauseHolds JoinQuery.srcClause r v with
             | .ok sk => .ok (pk || sk)
             | o => o
-          match first with
-          | .ok f =>
-            (match constraintsHold r v cs [] with
-             | .ok t =>
-               let ver := if vf then (v.versionKind == some r.pkg.normKind && inRange) else true
-               .ok (f && t && ver)
-             | o => o)
-          | o => o)
+        match first with
+        | .ok f =>
+          (match constraintsHold r v cs [] with
+           | .ok t =>
+             let ver := if vf then (v.versionKind == some r.pkg.normKind && inRange) else true
+             .ok (f && t && ver)
+           | o => o)
+        | o => o)
      | o => o)
   | .nilDeref => .panic
   | .unknown => .err
